@@ -176,3 +176,31 @@ fn leaf(c: &Case) {
 }
 pub fn c06(c: &Case) { ik_search(c, "C06"); }
 pub fn c08(c: &Case) { ik_search(c, "C08"); }
+
+/// C02: completeness and closure of plain inverse on non-singular configurations (margins on sin q5, sin(q3+psi), wrist-centre reach)
+pub fn c02(c: &Case) {
+    let mut bad: Vec<String> = Vec::new(); let mut tried = 0;
+    for (o, p) in robots(c) {
+        let k = OPWKinematics::new(p);
+        let psi = o.a2.atan2(o.c3); let kap = (o.a2 * o.a2 + o.c3 * o.c3).sqrt();
+        for q in joint_battery(120, 3) {
+            let g: Vec<f64> = (0..6).map(|i| q[i] * o.sign[i] - o.off[i]).collect();
+            let cx1 = o.c2 * g[1].sin() + kap * (g[1] + g[2] + psi).sin() + o.a1;
+            if g[4].sin().abs() < 0.05 || (g[2] + psi).sin().abs() < 0.05 || cx1.abs() < 0.05 { continue; }
+            tried += 1;
+            let pose = fk(&o, &q); let sols = k.inverse(&pose_of(&pose));
+            if !sols.iter().any(|s| same_mod(s, &q, 1e-6, 6)) { bad.push(format!("originating configuration {:?} is not among the {} answers", q, sols.len())); }
+            for (i, s) in sols.iter().enumerate() {
+                let twin = [s[0], s[1], s[2], s[3] + PI * o.sign[3], -s[4] - 2.0 * o.off[4] * o.sign[4], s[5] - PI * o.sign[5]];
+                let tw_geom: Vec<f64> = (0..6).map(|j| s[j] * o.sign[j] - o.off[j]).collect();
+                let want = [tw_geom[0], tw_geom[1], tw_geom[2], tw_geom[3] + PI, -tw_geom[4], tw_geom[5] - PI];
+                let want_j: Joints = [ (want[0] + o.off[0]) * o.sign[0], (want[1] + o.off[1]) * o.sign[1], (want[2] + o.off[2]) * o.sign[2], (want[3] + o.off[3]) * o.sign[3], (want[4] + o.off[4]) * o.sign[4], (want[5] + o.off[5]) * o.sign[5] ];
+                let _ = twin;
+                if !sols.iter().any(|t| same_mod(t, &want_j, 1e-6, 6)) { bad.push(format!("wrist-flipped twin of answer {:?} is missing", s)); }
+                for (j2, t) in sols.iter().enumerate() { if j2 > i && same_mod(s, t, 1e-9, 6) { bad.push(format!("duplicate answers {:?}", s)); } }
+                let n2 = k.inverse(&pose_of(&fk(&o, s))).len(); if n2 != sols.len() { bad.push(format!("answer set has {} elements for the pose of {:?} but {} for the pose of one of its answers", sols.len(), q, n2)); }
+            }
+        }
+    }
+    finish(bad, tried);
+}
